@@ -44,9 +44,9 @@ Section C04.
   Variable vary_header : request -> option (bytes * option bytes) -> fatx -> list (bytes * bytes).
   Variable clear_alias : request -> option request.
   Notation missR := (missX hstate compute true ims_on fix_ovkey fix_svary sfilter negotiate vary_tuple vary_header).
-  Notation serveR := (serveX hstate compute true ims_on true fix_ovkey fix_svary true sfilter parse_ims sanitize_ok prime override
+  Notation serveR := (serveX hstate compute true ims_on true fix_ovkey fix_svary true true sfilter parse_ims sanitize_ok prime override
                              negotiate vary_tuple vary_header).
-  Notation runR_state := (runX_state hstate compute true ims_on true fix_ovkey fix_clear fix_svary true sfilter parse_ims sanitize_ok
+  Notation runR_state := (runX_state hstate compute true ims_on true fix_ovkey fix_clear fix_svary true true sfilter parse_ims sanitize_ok
                                      prime override negotiate vary_tuple vary_header clear_alias).
 
   (** the miss arm stores exactly when admission says so, and nothing else changes in the cache *)
@@ -125,14 +125,22 @@ Section C04.
              negotiate vary_tuple vary_header).
   Qed.
 
-  (** 304 is sent by the cache exactly when a usable entry is found and the client's date passes the test *)
+  (** 304 is sent by the cache exactly when a usable entry is found, it holds the variant the request selects and the
+      client's date passes the test; otherwise the request is answered from that variant or by computing it *)
   Theorem not_modified_rule : forall c hs now r0 k e c1,
     let r := prime r0 in
     xlookup (lookup_req r (override r0)) c now = ((k, Some e), c1) -> sanitize_ok r0 = true -> get_or_head (rq_method r) = true ->
-    (ims_hit ims_on parse_ims r e = true /\ rx_status (snd (fst (serveR (c, hs) now r0))) = 304 /\
-     rx_from_cache (snd (fst (serveR (c, hs) now r0))) = true /\ snd (serveR (c, hs) now r0) = [] /\
-     rx_body (snd (fst (serveR (c, hs) now r0))) = [] /\ fst (fst (serveR (c, hs) now r0)) = (c1, hs))
-    \/ ims_hit ims_on parse_ims r e = false.
+    (ims_hit ims_on parse_ims r e = true /\ xv_find (vary_tuple r (override r0)) (ex_vars e) <> None /\
+     rx_status (snd (fst (serveR (c, hs) now r0))) = 304 /\ rx_from_cache (snd (fst (serveR (c, hs) now r0))) = true /\
+     snd (serveR (c, hs) now r0) = [] /\ rx_body (snd (fst (serveR (c, hs) now r0))) = [] /\ fst (fst (serveR (c, hs) now r0)) = (c1, hs))
+    \/
+    ((ims_hit ims_on parse_ims r e = false \/ xv_find (vary_tuple r (override r0)) (ex_vars e) = None) /\
+     serveR (c, hs) now r0 =
+       match xv_find (vary_tuple r (override r0)) (ex_vars e) with
+       | Some v => ((c1, hs), finishX fix_svary negotiate vary_header r (override r0) (v_resp v) ims_on true false, [])
+       | None => vary_missingX hstate compute true ims_on true fix_svary true sfilter negotiate vary_tuple vary_header c1 hs now r
+                               (override r0) true k e
+       end).
   Proof.
     exact (ims_rule_x hstate compute ims_on fix_ovkey fix_svary sfilter parse_ims sanitize_ok prime override negotiate
              vary_tuple vary_header).
@@ -161,10 +169,10 @@ Theorem computed_once_history :
   snd (fst (xlookup (lookup_req (prime r0) (override r0)) c now0)) = None ->
   compute hs (prime r0) (override r0) true = (x, hs1, lg1) -> may_store_x true sfilter (rq_method (prime r0)) x = true ->
   Forall (benign fix_clear prime override clear_alias r0 x) ops ->
-  let serveR := serveX hstate compute true ims_on true true fix_svary true sfilter parse_ims sanitize_ok prime override
+  let serveR := serveX hstate compute true ims_on true true fix_svary true true sfilter parse_ims sanitize_ok prime override
                        negotiate vary_tuple vary_header in
   let st1 := fst (fst (serveR (c, hs) now0 r0)) in
-  let run := runX_state hstate compute true ims_on true true fix_clear fix_svary true sfilter parse_ims sanitize_ok prime override
+  let run := runX_state hstate compute true ims_on true true fix_clear fix_svary true true sfilter parse_ims sanitize_ok prime override
                         negotiate vary_tuple vary_header clear_alias st1 now0 ops in
   snd run <= D ->
   snd (serveR (fst run) (snd run) r0) = [] /\ snd (fst (fst (serveR (fst run) (snd run) r0))) = snd (fst run) /\
@@ -179,7 +187,8 @@ Proof.
 Qed.
 
 (** the first clause over histories, under the handler contract of C03 ([cf]: the response is a function of the request):
-    a response that is not admissible is recomputed by EVERY request of EVERY history, whatever earlier requests stored *)
+    a response that is not admissible is recomputed by EVERY request (with or without If-Modified-Since) of EVERY history,
+    whatever earlier requests stored *)
 Theorem uncacheable_always_recomputed :
   forall (hstate : Type) (compute : hstate -> request -> option (bytes * option bytes) -> bool -> fatx * hstate * list bytes)
          (ims_on fix_clear : bool) (sfilter : N -> bool) (parse_ims : bytes -> option Z) (sanitize_ok : request -> bool)
@@ -194,20 +203,20 @@ Theorem uncacheable_always_recomputed :
      cf r ov true = cf r' ov' true) ->
   (forall r ov, f_spref (fx_fat (cf r ov false)) = SP_NONE) ->
   forall ops hs now r0,
-  Forall (op_no_imsx ims_on prime) ops -> no_imsx ims_on prime r0 ->
+  Forall (op_no_imsx ims_on prime) ops ->
   may_store_x true sfilter (rq_method (prime r0)) (cf (prime r0) (override r0) (sanitize_ok r0)) = false ->
-  let serveC := serveX hstate compute true ims_on true true true true sfilter parse_ims sanitize_ok prime override
+  let serveC := serveX hstate compute true ims_on true true true true true sfilter parse_ims sanitize_ok prime override
                        negotiate vary_tuple vary_header in
-  let st := runX_state hstate compute true ims_on true true fix_clear true true sfilter parse_ims sanitize_ok prime override
+  let st := runX_state hstate compute true ims_on true true fix_clear true true true sfilter parse_ims sanitize_ok prime override
                        negotiate vary_tuple vary_header clear_alias ([], hs) now ops in
   snd (serveC (fst st) (snd st) r0) = snd (compute (snd (fst st)) (prime r0) (override r0) (sanitize_ok r0)) /\
   snd (fst (fst (serveC (fst st) (snd st) r0))) = snd (fst (compute (snd (fst st)) (prime r0) (override r0) (sanitize_ok r0))).
 Proof.
   intros hstate compute ims_on fix_clear sfilter parse_ims sanitize_ok prime override negotiate vary_tuple vary_header
-         clear_alias cf Hpure contract Herr ops hs now r0 Hno Hims Hnot.
+         clear_alias cf Hpure contract Herr ops hs now r0 Hno Hnot.
   exact (uncacheable_recomputed_history hstate compute ims_on fix_clear sfilter parse_ims sanitize_ok prime override negotiate
            vary_tuple vary_header clear_alias cf Hpure contract Herr ops [] hs now r0
-           (TInv_nil vary_tuple cf) (AdmInv_nil sfilter) Hno Hims Hnot).
+           (TInv_nil vary_tuple cf) (AdmInv_nil sfilter) Hno Hnot).
 Qed.
 
 (** the date test: accepted iff not older than the entry's second (the exact-second corner spelled out) *)
@@ -262,6 +271,12 @@ Theorem clear_unprimed_refuted :
                 rx_from_cache rp = true /\ rx_body rp = B "n=1".
 Proof. exact clear_unprimed_refuted_w. Qed.
 
+(** 304 was decided before the variant was looked up: a request with If-Modified-Since for a variant whose handler
+    declared no server caching was answered 304 from the page's entry, without recomputation *)
+Theorem ims_unstored_variant_refuted :
+  exists rp, nth 1 (run_cfgx true w7_cx w7_ops) XbNone = XbReply rp [] /\ rx_status rp = 304.
+Proof. exact ims_unstored_variant_refuted_w. Qed.
+
 (** ---------------- non-vacuity ---------------- *)
 Example c04_ex_admit : may_store_x true status_filter_drop M_GET
                          (plain (mkFat 200 [(B "cache-control", B "max-age=1")] (B "x") SP_FULL true)) = true.
@@ -284,6 +299,24 @@ Example c04_ex_among : lifetime_ms (mkFat 200 [(B "cache-control", B "public, ma
 Proof. vm_compute. reflexivity. Qed.
 (** the repaired model stores the admissible variant only and expires the entry with its shortest-lived variant *)
 Example c04_ex_repaired_push :
-  bodies (run_cfgx true (mkCfgX (cx_base w1_cx) (cx_xhandlers w1_cx) 0 None true true true true true)
+  bodies (run_cfgx true (mkCfgX (cx_base w1_cx) (cx_xhandlers w1_cx) 0 None true true true true true true)
                    (w1_ops ++ [XReq (w_req (B "b")); XReq (w_req (B "a"))])) = [B "a=1"; B "b=2"; B "b=3"; B "a=1"].
+Proof. vm_compute. reflexivity. Qed.
+(** [cleared_is_miss] in the two-key state: the handler of /p answers QueryMatters when asked with a query (x-k: q) and
+    Full for the bare form; after GET /p?q=a and GET /p both keys of the page are occupied; clear_page("/p?q=a")
+    removes both, so the next GET /p?q=a is not answered from the surviving path-only entry but recomputed *)
+Definition ex_two_keys_cx : configx :=
+  mkCfgX (w_cfg false [] [])
+         [mkXH (B "/p") (B "x-k") [mkBeh (B "q") (mkH (B "/p") 2 200 (B "q=") [] SP_QUERY 0 false []) 0 0;
+                                    mkBeh [] (mkH (B "/p") 2 200 (B "form=") [] SP_FULL 0 false []) 0 0]]
+         0 None true true true true true true.
+Definition ex_rq : request := mkReq M_GET (B "/p") (Some (B "q=a")) [(B "x-k", B "q")] 1.
+Definition ex_rf : request := mkReq M_GET (B "/p") None [] 1.
+Example c04_ex_two_keys_occupied :
+  let c := fst (fst (run_cfgx_state true ex_two_keys_cx [XReq ex_rq; XReq ex_rf])) in
+  xc_find (key_pq ex_rq) c <> None /\ xc_find (key_p ex_rq) c <> None.
+Proof. vm_compute. split; discriminate. Qed.
+Example c04_ex_two_keys_cleared :
+  bodies (run_cfgx true ex_two_keys_cx [XReq ex_rq; XReq ex_rf; XReq ex_rq; XClearPage ex_rq; XReq ex_rq; XReq ex_rf]) =
+  [B "q=1"; B "form=2"; B "q=1"; []; B "q=3"; B "form=4"].
 Proof. vm_compute. reflexivity. Qed.
